@@ -18,6 +18,8 @@ mod utils;
 mod attr;
 mod deps;
 mod types;
+#[cfg(ts_rs_verif)]
+mod verif;
 
 struct DerivedTS {
     crate_rename: Path,
